@@ -223,20 +223,53 @@ func (s *JSONDB) Compact(original string) error {
 
 	newFile := fmt.Sprintf("%s_c.dat", strings.TrimSuffix(filepath.Base(original), filepath.Ext(original)))
 	f := filepath.Join(filepath.Dir(original), newFile)
-	w := &writer{target: f}
+	// The copy is written under a name the readers do not match and is
+	// published with a rename: a reader (or a crash) never sees a half-written
+	// compacted file.
+	tmp := f + ".tmp"
+	_ = os.Remove(tmp)
+	w := &writer{target: tmp}
 	if err := w.open(); err != nil {
 		return err
 	}
-	defer w.close()
 
 	if err := w.write(status); err != nil {
-		if removeErr := os.Remove(f); removeErr != nil {
-			log.Printf("failed to remove %s : %s", f, removeErr)
+		_ = w.close()
+		if removeErr := os.Remove(tmp); removeErr != nil {
+			log.Printf("failed to remove %s : %s", tmp, removeErr)
 		}
+		return err
+	}
+	if err := w.close(); err != nil {
+		return err
+	}
+	if err := os.Rename(tmp, f); err != nil {
 		return err
 	}
 
 	return os.Remove(original)
+}
+
+// dropCompacted removes from matches every history file whose compacted copy
+// ("<name>_c.dat") is among the matches too: between publishing the copy and
+// removing the original both exist, and the run must not be listed twice.
+func dropCompacted(matches []string) []string {
+	compacted := map[string]bool{}
+	for _, m := range matches {
+		if strings.HasSuffix(m, "_c"+extDat) {
+			compacted[strings.TrimSuffix(m, "_c"+extDat)+extDat] = true
+		}
+	}
+	if len(compacted) == 0 {
+		return matches
+	}
+	ret := matches[:0:0]
+	for _, m := range matches {
+		if !compacted[m] {
+			ret = append(ret, m)
+		}
+	}
+	return ret
 }
 
 func (s *JSONDB) Rename(oldID, newID string) error {
@@ -378,6 +411,7 @@ func filterLatest(files []string, n int) []string {
 	if len(files) == 0 {
 		return nil
 	}
+	files = dropCompacted(files)
 	sort.Slice(files, func(i, j int) bool {
 		return timestamp(files[i]) > timestamp(files[j])
 	})
